@@ -8,6 +8,7 @@ claim = {
  "C02": ("full statement within bounds", "DESIGN.md §4 C02"),
  "C03": ("decision kernels only (SQL range-merge predicate, chunk-arrival step, apply trigger, applier guard); atomic visibility itself is SQLite's", "DESIGN.md §4 C03"),
  "C04": ("full statement within bounds", "DESIGN.md §4 C04"),
+ "C05": ("in part: answering a partially buffered version from the buffered rows (exactly held ∩ requested), the need filter predicate, the overlap lookup predicate; Full-need path and empties detection are outside", "DESIGN.md §4 C05"),
  "C08": ("full statement within bounds", "DESIGN.md §4 C08"),
  "C09": ("decode totality, round trips and key layout within size bounds; byte-compatibility with the binary extension only through its documented layout", "DESIGN.md §4 C09"),
  "C10": ("safety invariant + one-step progress lemma of the ingest step", "DESIGN.md §4 C10"),
@@ -19,7 +20,6 @@ claim = {
 }
 na_reasons = {
  "C01": "convergence is decided by the binary-only cr-sqlite extension merging rows inside SQLite (FFI): not encodable; its bookkeeping lemmas are checked under C02/C03/C04",
- "C05": "handle_need interleaves six SQL queries (incl. the extension's crsql_changes virtual table) with streaming; a faithful re-hosting was not reached — the parts within reach (send_change_chunks, ChunkedChanges, overlap predicate) are checked under C08/C03",
  "C06": "quantifies over crash points of SQLite's WAL/pager and the file system: no Rust code the solver can see carries the property",
  "C07": "atomicity / version allocation are properties of an SQLite IMMEDIATE transaction and crsql_peek_next_db_version (FFI); chunk tiling is C08, gap-free own versions is the s=e=head+1 case of C02",
  "C11": "the oracle is SQLite evaluating arbitrary user SQL and the matcher's generated EXCEPT statements",
